@@ -42,18 +42,36 @@ class Rec:
 
 
 class FakeFsspec:
+    names = ()  # what the product directory contains (set per case)
+
     def __init__(self, rec):
         self.rec = rec
 
     def get_mapper(self, path, **kw):
-        m = _Mapper(path, kw)
+        m = _Mapper(path, kw, self.names)
         self.rec.mapper_calls.append(m)
         return m
 
 
 class _Mapper:
-    def __init__(self, path, kw):
+    """the product's mapper: a read-only mapping interface over the names present in the directory (listing / membership only;
+    file contents are served by the patched readers)"""
+
+    def __init__(self, path, kw, names=()):
         self.root, self.kw, self.fs = "ROOT:" + path, kw, None
+        self._names = list(names)
+
+    def __contains__(self, key):
+        return key in self._names
+
+    def __iter__(self):
+        return iter(list(self._names))
+
+    def __len__(self):
+        return len(self._names)
+
+    def keys(self):
+        return list(self._names)
 
 
 class FakeSarImage:
@@ -119,11 +137,25 @@ def opts_ok(use_cache: bool, create_cache: bool, rpc: int, give_uc: bool, give_c
     post: _
     """
     ok = True
+    for k, order in enumerate(ORDERS):
+        # directory states (enumerated, not symbolic: they only steer membership tests): plain; for the two-image order also an
+        # <image>.index next to every image, one listed image absent, both
+        for adjacent, absent in ([(False, -1), (True, -1), (False, 0), (True, 1)] if k == 1 else [(False, -1)]):
+            ok = ok & _opts_case(order, adjacent, absent, use_cache, create_cache, rpc, give_uc, give_cc, give_rpc, give_so, token)
+    return ok
+
+
+def _opts_case(order, adjacent, absent, use_cache, create_cache, rpc, give_uc, give_cc, give_rpc, give_so, token):
+    # adjacent: an <image>.index lies next to every image; absent: one listed image is not in the directory (its reader then fails -
+    # here the stand-in reader records the call): neither changes which files are handed to the image reader nor with which options
+    ok = True
     defaults_before = (copy.deepcopy(IOM.open.__kwdefaults__), copy.deepcopy(X.open_alos2.__defaults__))
-    for order in ORDERS:
+    for order in [order]:
         files = [NAMES[i] for i in order]
         rec = Rec()
         saved = _patched_open(rec, files)
+        present = ["summary.txt", "VOL-X", "LED-X", "TRL-X"] + [f for k, f in enumerate(files) if k != absent] + ([f + ".index" for f in files] if adjacent else [])
+        IOM.fsspec.names = present
         try:
             so = {"anon": token, "nested": {"k": [token]}}
             opts = {}
